@@ -555,6 +555,32 @@ def audit_cases(rng):
         A["errors"][2] = 2.0 ** -40
         add("tiny-error", kind="binop", op=op, self_left=True, A=A, other=["meas", gen_val(rng, "pos"), 2.0 ** -40, ""])
         add("tiny-error", kind="binop", op=op, self_left=False, A=dict(A), other=gen_operand(rng, "arr", 5, "pos"))
+    # 5a. SPECIAL uncertainties: a single quantity that is EXACT (uncertainty 0 / 0.0) but carries a unit, arrays with
+    #     exact elements, an uncertainty as large as / much larger than the value
+    units = [u for u in UNITS if u]
+    for n in (2, 5):
+        for op in BINOPS:
+            for sl in (True, False):
+                v = gen_val(rng, "pos")
+                others = [["meas", v, 0, rng.choice(units)], ["meas", v, 0.0, rng.choice(units)], ["meas", v, 0, ""],
+                          ["rmeas", [float(v)] * 3, None, rng.choice(units)],                  # identical readings: error 0
+                          ["rmeas", [float(v)] * (n if n >= 2 else 2), [0.0] * (n if n >= 2 else 2), rng.choice(units)],
+                          ["derived", v, 0, 1, 0, rng.choice(units)],                          # calculated from exact values
+                          ["meas", v, float(v), rng.choice(units)], ["meas", v, float(v) * 1024, rng.choice(units)],
+                          ["arr", dict(gen_arr(rng, n, "pos", unit=rng.choice(units)), errors=[0] * n)]]
+                for other in others:
+                    add("exact", kind="binop", op=op, self_left=sl, A=gen_arr(rng, n, "pos", unit=rng.choice(units)),
+                        other=other)
+                A = gen_arr(rng, n, "pos", unit=rng.choice(units))
+                A["errors"] = [0 if i % 2 == 0 else A["errors"][i] for i in range(n)]
+                for kind in ("num", "meas", "list", "arr"):
+                    add("exact", kind="binop", op=op, self_left=sl, A=dict(A), other=gen_operand(rng, kind, n, "pos"))
+        for other in (["meas", 0.5, 0, "m"], ["rmeas", [0.5, 0.5], None, "s"], ["derived", 0.5, 0, 1, 0, "m"]):
+            add("exact", kind="log2", a=["arr", gen_arr(rng, n, "unit", unit="m")], b=other)
+            add("exact", kind="log2", a=other, b=["arr", gen_arr(rng, n, "unit", unit="m")])
+    for fn in FNAMES:
+        add("exact", kind="fn", f=fn, arg=["arr", dict(gen_arr(rng, 2, "unit", unit="m"), errors=[0, 0.125])])
+        add("exact", kind="fn", f=fn, arg=["meas", 0.5, 0, "m"])
     # 5. SPECIAL values and boundaries
     for op in BINOPS:
         for sl in (True, False):
@@ -727,7 +753,7 @@ def correspondence(ctx):
                 "with / without individual reading uncertainties --, a calculated quantity, list, "
                 "ndarray, MeasurementArray) + unary minus + 19 vectorised math functions x 5 argument kinds + two-argument "
                 "log over 10 x 10 argument kinds (both positions), each for lengths 1, 2, 5 with random dyadic contents inside the domains "
-                "(thorough: 40 content draws), plus single operands whose central value is exactly 0 or 1 (numbers, numpy scalars, measurements with non-zero uncertainty, repeated, calculated) on both sides of every operator where inside its domain, arrays holding the values 0 and 1, log(A, 1); plus the audit dimensions: equal central values and names in distinct objects, data and uncertainties scaled by 2^-40 / 2^-30 / 2^30, one tiny uncertainty, special values -1 / 2 / 10 / 100, boundary arguments of every function, exact powers for log, numbers of every numpy width / Fraction / bool, typed ndarrays, operands read before use; plus operands of mismatched length (must raise, also twice). Observed: the container "
+                "(thorough: 40 content draws), plus single operands whose central value is exactly 0 or 1 (numbers, numpy scalars, measurements with non-zero uncertainty, repeated, calculated) on both sides of every operator where inside its domain, arrays holding the values 0 and 1, log(A, 1); plus the audit dimensions: equal central values and names in distinct objects, data and uncertainties scaled by 2^-40 / 2^-30 / 2^30, one tiny uncertainty, exact single quantities (uncertainty 0) that carry a unit, arrays with exact elements, uncertainties as large as the value, special values -1 / 2 / 10 / 100, boundary arguments of every function, exact powers for log, numbers of every numpy width / Fraction / bool, typed ndarrays, operands read before use; plus operands of mismatched length (must raise, also twice). Observed: the container "
                 "kind and, for every element of the result, its Formula tree (operator literal, operand identities: i-th "
                 "element object of which array / the measurement / Constant with which value / plain number), compared "
                 "with the dispatch model. non-trivial = distinct (cell, length) pairs covered")
